@@ -22,6 +22,13 @@ CLAIMED = {
              "soundness, exact-constant / range-only-inside / custom-fallback characterisation for every table and value, alias-aware response-code names.",
         design_ref='DESIGN.md §3 C20',
         technique='Lean 4 proof; model regenerated from source (complete finite graphs) + decide +kernel tie; exhaustive differential check vs Spec'),
+    'C19': dict(
+        text="Lean theorems: decode∘encode and encode∘decode for Status, Severity+DtcClass, CommunicationType, DataFormatIdentifier, ALFID "
+             "(64 pairs), Baudrate (fixed/identifier tables, automatic classification, all 2^24 specific rates by omega), pack_dtc (all 2^24 by omega), "
+             "with bit-position lemmas; finite domains by decide +kernel over the whole domain. The Model codecs are tied to /repo by complete "
+             "extracted graphs proved equal in the kernel; the two 2^24 domains by a streamed hash against the real functions.",
+        design_ref='DESIGN.md §3 C19',
+        technique='Lean 4 proof (decide +kernel on full domains, omega for 24-bit) + extracted complete graphs tie + exhaustive differential check'),
 }
 
 PENDING_REASON = 'check not built yet in this round (build order in DESIGN.md §7); not claimed until its theorem and tie exist'
